@@ -2,6 +2,9 @@
 import re
 from collections import deque
 
+import io
+import sys
+
 from .. import core
 from ..refmodel import tables as T
 
@@ -223,6 +226,53 @@ def check_scenarios(tier):
             if toks is None or "".join(r for r, c, _, _ in toks) != seq_ or any(c != want[r] for r, c, _, _ in toks):
                 acc.viol("palette-not-committed" if ok else "rejected-update-changed-palette", "%s object after a %s first update renders %r"
                          % (mname, fname, None if toks is None else sorted(set((r, c) for r, c, _, _ in toks))[:5]), case)
+    # duplicates made outside the library API (pickle with every protocol, deepcopy, copy of the backend object) render with the
+    # palette the original had; and every colour name is accepted while warnings are errors / numpy errors raise / stdout is ASCII-only
+    import copy as _copy
+    import pickle as _pickle
+    pal_c = {a: T.HTML_COLOURS[(13 * i + 4) % 17] for i, a in enumerate(T.AA)}
+    routes = [("pickle-%d" % pr, (lambda x, pr=pr: _pickle.loads(_pickle.dumps(x, protocol=pr)))) for pr in range(_pickle.HIGHEST_PROTOCOL + 1)]
+    routes += [("deepcopy", _copy.deepcopy), ("deepcopy-of-backend", lambda x: _SP0(SeqObj=_copy.deepcopy(x.SeqObj))),
+               ("copy-of-backend", lambda x: _SP0(SeqObj=_copy.copy(x.SeqObj)))]
+    for rname, rf in routes:
+        case = {"kind": "clone", "palette": rname}
+        acc.transitions += 2
+        acc.traces += 1
+        try:
+            A = SP(CYCLE)
+            A.set_HTMLColorResiduePalette(dict(pal_c))
+            B = rf(A)
+            obs = observe_palette(B)
+        except Exception as e:  # noqa
+            acc.viol("html-raises", "a %s duplicate of an object with a custom palette could not be made or rendered: %r" % (rname, e), case)
+            continue
+        if obs != pal_c:
+            acc.viol("clone-loses-palette", "a %s duplicate of an object with a custom palette renders %r" % (rname, sorted(obs.items())[:5] if isinstance(obs, dict) else obs), case)
+    import warnings as _w
+    import numpy as _np
+    for c in T.HTML_COLOURS:
+        case = {"kind": "strict-interpreter", "palette": c}
+        acc.transitions += 1
+        acc.traces += 1
+        old_err = _np.geterr()
+        old_out = sys.stdout
+        try:
+            with _w.catch_warnings():
+                _w.simplefilter("error")
+                _np.seterr(all="raise")
+                sys.stdout = io.TextIOWrapper(io.BytesIO(), encoding="ascii", errors="strict", write_through=True)
+                o = SP(CYCLE)
+                o.set_HTMLColorResiduePalette({a: (c if i % 2 else "black") for i, a in enumerate(T.AA)})
+                html = o.get_HTMLColorString()
+        except Exception as e:  # noqa
+            acc.viol("valid-palette-rejected", "with warnings as errors, numpy errors raising and an ASCII-only stdout a valid palette using %r raised %r" % (c, e), case)
+            continue
+        finally:
+            sys.stdout = old_out
+            _np.seterr(**old_err)
+        toks = parse_html(html)
+        if toks is None or any(col != (c if T.AA.index(r) % 2 else "black") for r, col, _, _ in toks):
+            acc.viol("palette-not-committed", "strict interpreter state: palette using %r not rendered" % c, case)
     # two handles on one sequence object (a second SequenceParameters built with SeqObj=, and the backend object itself): an update
     # accepted through one handle, then a rejected one through the other - every handle must still render the accepted palette
     from localcider.sequenceParameters import SequenceParameters as _SP
@@ -437,7 +487,7 @@ def opt_shards(tier):
 
 
 def replay(case):
-    if case.get("kind") in ("reused-dict", "first-object", "extra-keys", "context", "key-order", "two-handles", "derived-object"):
+    if case.get("kind") in ("reused-dict", "first-object", "extra-keys", "context", "key-order", "two-handles", "derived-object", "clone", "strict-interpreter"):
         a = check_scenarios("quick")
         return [v for v in a.violations if v["case"].get("palette") == case.get("palette") and v["case"]["kind"] == case["kind"]
                 and v["case"].get("index") == case.get("index") and v["case"].get("order") == case.get("order")
@@ -508,7 +558,7 @@ def run(tier, seed, t0):
              "palette entry, exactly one space before residues 0,10,20,.., a <br> before residues 0,50,100,.., stripped markup == "
              "sequence. Scenarios: the caller edits its own dictionary in place after an accepted update (the palette must not follow, the "
              "re-submission must be rejected and change nothing); in a freshly imported package the very first object receives each "
-             "valid palette and an object created afterwards must still render with the default. a dictionary that colours all 20 residues validly and carries extra keys is accepted (extras ignored); objects not built from a string (swap children, explicit charge pattern, shuffles) validate their first update and render with the default; sequences of 2551..12851 residues (thorough 51201); two palettes resubmitted with their keys inserted in six other orders render identically; with two handles on one sequence object (second wrapper / backend object) an update accepted through one and rejected through the other leaves every handle on the accepted palette; after analyses, plots and a shuffle on the same object the palette is unchanged. dont-care: upper-case colour names; non-trivial = renders longer than one block of 10" % (
+             "valid palette and an object created afterwards must still render with the default. a dictionary that colours all 20 residues validly and carries extra keys is accepted (extras ignored); pickle / deepcopy / copy duplicates keep the palette; all 17 colours are accepted with warnings as errors, numpy errors raising and an ASCII-only stdout; objects not built from a string (swap children, explicit charge pattern, shuffles) validate their first update and render with the default; sequences of 2551..12851 residues (thorough 51201); two palettes resubmitted with their keys inserted in six other orders render identically; with two handles on one sequence object (second wrapper / backend object) an update accepted through one and rejected through the other leaves every handle on the accepted palette; after analyses, plots and a shuffle on the same object the palette is unchanged. dont-care: upper-case colour names; non-trivial = renders longer than one block of 10" % (
                  len(ops), "all" if full else "3", ", None, 5" if full else "", "1..120" if full else "{1,9,10,11,20,49,50,51,60,99,100,101,120}"),
         bounds={"palette_ops": len(ops), "render_inputs_per_state": len(seqs), "depth": "fixpoint"},
         assumptions=["the palette is observed through rendering only (no attribute reads)"])
